@@ -22,6 +22,27 @@ type C18Case struct {
 	Consts map[string]any `json:"consts,omitempty"` // WithConstants
 	Direct bool           `json:"direct,omitempty"` // also call the exported Go function directly
 	Class  string         `json:"class"`
+	// Prelude: calls of built-ins made in the same process right before the query, on arguments of any shape
+	// (arrays and objects included); whatever they return - a value or an error - the functions are functions
+	// of their arguments, so the outcome of the query must not depend on them
+	Prelude []string `json:"prelude,omitempty"`
+}
+
+// c18Preludes: select items evaluated over the row {arr: [1, "x", null, [2]], o: {a: 1, b: "y"}, s: "abc"}
+var c18Preludes = []string{
+	"HASH(arr, 'md5')", "HASH(o, 'sha1')", "HASH(arr, 'sha256')", "HASH(o, 'sha512')", "HASH(arr, 'nope')", "HASH(s, 'nope')",
+	"ENCODE(arr, 'hex')", "ENCODE(o, 'base64')", "ENCODE(arr, 'base32')", "ENCODE(o, 'hex')", "ENCODE(arr, 'nope')", "ENCODE(s, 'nope')",
+	"DECODE('zz', 'hex')", "DECODE('!!', 'base64')", "DECODE(s, 'base32')", "DECODE(arr, 'hex')", "DECODE(ENCODE(s, 'hex'), 'base64')",
+	"ELEMENTAT(arr, 9)", "ELEMENTAT(arr, -1)", "ELEMENTAT(o, 0)", "FIRST(o)", "LAST(s)", "UNWIND(o)", "UNWIND(s)",
+	"CHANGETYPE('x', 'double')", "CHANGETYPE(arr, 'string')", "CHANGETYPE(o, 'integer')", "CHANGETYPE(s, 'nope')",
+	"CONCAT(arr, o)", "TO_UPPER(arr)", "TO_LOWER(o)", "IF(s, 1, 2)", "DATERANGE(arr, o)", "CONSTANT('missing')", "HASH(s)", "ENCODE()",
+}
+
+func c18RunPrelude(c *C18Case) {
+	for _, item := range c.Prelude {
+		doc := map[string]any{"t": []any{map[string]any{"arr": []any{1.0, "x", nil, []any{2.0}}, "o": map[string]any{"a": 1.0, "b": "y"}, "s": "abc"}}}
+		Run(doc, "SELECT "+item+" AS p FROM t", Opts{}, genql.UnReportedErrors(func(error) {}))
+	}
 }
 
 // reference outcomes beyond plain values
@@ -668,6 +689,12 @@ func genC18(t *rapid.T) any {
 			c.Expr = sq.Call("FIRST", sq.Call("ARRAY", sq.Call("DECODE", sq.Call("ENCODE", b.arg(genC18Scalar(t, "v"), "v"), sq.Str(base)), sq.Str(base))))
 		}
 	}
+	if rapid.IntRange(0, 3).Draw(t, "withprelude") == 0 {
+		n := rapid.IntRange(1, 3).Draw(t, "nprelude")
+		for i := 0; i < n; i++ {
+			c.Prelude = append(c.Prelude, rapid.SampledFrom(c18Preludes).Draw(t, fmt.Sprintf("prelude%d", i)))
+		}
+	}
 	return c
 }
 
@@ -858,6 +885,11 @@ func c18Judge(c *C18Case, nilText bool) Result {
 		extra = append(extra, genql.WithConstants(val.CopyMap(c.Consts)))
 	}
 	extra = append(extra, genql.WithVars(map[string]any{}), genql.UnReportedErrors(func(error) {}))
+	if len(c.Prelude) > 0 {
+		res.Labels = append(res.Labels, "after-prelude-calls")
+		c18RunPrelude(c)
+		res.Execs += len(c.Prelude)
+	}
 	out := Run(doc, sql, Opts{}, extra...)
 	res.Execs++
 	ctx := fmt.Sprintf("%s on row %s", sql, val.JSON(row))
@@ -934,6 +966,7 @@ func c18Judge(c *C18Case, nilText bool) Result {
 			}
 			args[i] = val.Copy(v)
 		}
+		c18RunPrelude(c)
 		got, gerr, p := c18DirectCall(f, args)
 		res.Execs++
 		res.Labels = append(res.Labels, "direct-call")
